@@ -1,9 +1,9 @@
 #!/bin/bash
 # ./reftest.sh <name> <patch> [tier]  - applies a behaviour-preserving refactor to /repo and runs every check: none may fire
 name=$1; patch=$2; tier=${3:-quick}
-dest=/verif/seeded/refactors/$name; mkdir -p $dest; cp $patch $dest/patch.diff
-cd /repo && git apply --check $dest/patch.diff || { echo "PATCH DOES NOT APPLY"; exit 3; }
-git apply $dest/patch.diff
+dest=/verif/seeded/refactors/$name; mkdir -p $dest; [ "$patch" -ef "$dest/$(basename $patch)" ] || cp $patch $dest/patch.diff; applied=$dest/$(basename $patch)
+cd /repo && git apply --check $applied || { echo "PATCH DOES NOT APPLY"; exit 3; }
+git apply $applied
 suite=$(cargo test --offline 2>&1 | grep -E "^test result" | awk '{p+=$4; f+=$6} END {print p" passed "f" failed"}')
 fired=""
 cd /verif
